@@ -37,6 +37,15 @@ def Z3 : Mat := fun i j =>
   | 2, 0 => -1/2 | 2, 2 => 3/2
   | _, _ => 0
 
+/-- committors of `T3` for sources `[0]`, sinks `[2]` -/
+def q3 : Vec := fun i => match i with | 1 => 1/2 | 2 => 1 | _ => 0
+
+/-- observe one entry of an executable-reference result (functions are not comparable as a whole) -/
+def okVal (e : Except Err Vec) (i : Nat) : Option Rat :=
+  match e with | .ok q => some (q i) | .error _ => none
+def okEntry (e : Except Err Mat) (i j : Nat) : Option Rat :=
+  match e with | .ok m => some (m i j) | .error _ => none
+
 theorem reach_T4 : ∀ i, i < 4 → Reach 4 T4 ([0] ++ [2, 3]) i := by
   intro i hi
   match i, hi with
